@@ -523,3 +523,50 @@ def exhaustive_sequences():
     return segs
 
 EXHAUSTIVE = {'C03': [exhaustive_bounds], 'C04': [exhaustive_teardown], 'C05': [exhaustive_sequences], 'C06': [exhaustive_sequences]}
+
+def exhaustive_selection():
+    """C02: (A) ties - two sequences, 1..2 optional predecessors in each, one candidate per sequence matching the same call
+    (equal non-zero cost), both creation orders, with / without an older unsequenced candidate, 3 matching calls and a
+    predecessor call; (B) an entry IN_SEQUENCE of two sequences (both listing orders) with an optional predecessor in one
+    of them (on another argument) and an unsequenced competitor for one of its arguments, every creation order, three bound pairs, every call string over three argument values up to length 3"""
+    segs = []
+    # ---- A
+    for k1 in (1, 2):
+        for k2 in (1, 2):
+            for order in ('c1c2', 'c2c1'):
+                for (lo, hi) in ((1, 1), (1, 2), (2, 3)):
+                    for older in (False, True):
+                        ops = ['mock 0', 'seq 1', 'seq 2']
+                        slot = 1
+                        if older:
+                            ops.append(expect_line(6, 9, 0, p=((1, 1), (0, 0)), retv=600)); 
+                        preds = []
+                        for i in range(k1):
+                            ops.append(expect_line(slot, 11, 0, p=((1, 0), (0, 0)), retv=100 * slot, q=(1, 0))); slot += 1
+                        for i in range(k2):
+                            if slot <= 3:
+                                ops.append(expect_line(slot, 11, 0, p=((1, 0), (0, 0)), retv=100 * slot, q=(2, 0))); slot += 1
+                        c = {'c1': expect_line(4, 5, 0, p=((1, 1), (0, 0)), retv=400, lo=lo, hi=hi, q=(1, 0)),
+                             'c2': expect_line(5, 5, 0, p=((1, 1), (0, 0)), retv=500, lo=lo, hi=hi, q=(2, 0))}
+                        ops += [c[order[:2]], c[order[2:]]]
+                        ops += ['call 0 1 1 0', 'call 0 1 1 0', 'call 0 1 0 0', 'call 0 1 1 0', 'call 0 1 1 0']
+                        segs.append(('xsel-A-%d%d-%s-%d.%d-%d' % (k1, k2, order, lo, hi, int(older)), ops))
+    # ---- B: p = optional predecessor on f(0) in sequence 2; e = entry of both sequences accepting f(1) and f(2);
+    #         u = unsequenced competitor accepting f(2) only
+    strings = [''.join(s) for n in range(1, 4) for s in itertools.product('abc', repeat=n)]
+    argof = {'a': 1, 'b': 0, 'c': 2}
+    for listing in ((1, 2), (2, 1)):
+        for (lo, hi) in ((1, 1), (2, 2), (1, 3)):
+            for perm in itertools.permutations('peu'):
+                for cs in strings:
+                    ops = ['mock 0', 'seq 1', 'seq 2']
+                    mk = {'p': expect_line(1, 11, 0, p=((1, 0), (0, 0)), retv=100, q=(2, 0)),
+                          'e': expect_line(2, 7, 0, p=((2, 0), (0, 0)), retv=200, lo=lo, hi=hi, q=listing),
+                          'u': expect_line(3, 9, 0, p=((1, 2), (0, 0)), retv=300)}
+                    ops += [mk[x] for x in perm]
+                    ops += ['call 0 1 %d 0' % argof[ch] for ch in cs]
+                    segs.append(('xsel-B-%d%d-%d.%d-%s-%s' % (listing[0], listing[1], lo, hi, ''.join(perm), cs), ops))
+    return segs
+
+EXHAUSTIVE['C02'] = [exhaustive_selection]
+EXHAUSTIVE['C01'] = [exhaustive_selection]
